@@ -78,6 +78,9 @@ def generate(rng, prop, tier):
                 grid = {}
                 for k in rng.sample(sorted(HYPER), rng.randint(1, 2)):
                     grid[k] = sorted(set(rng.sample(HYPER[k], min(len(HYPER[k]), rng.choice([1, 1, 2])))), key=repr)
+                if rng.random() < 0.3:
+                    # thresholds as plain ints, an int-first mixed grid, the boundary value 0
+                    grid["innovation_filtering"] = rng.choice([[3, 6.5], [1, 2.5], [4], [0, 2.0], [2, 0]])
                 if d["name"] in ("cv", "direct2") and rng.random() < 0.35:
                     grid["extra_validation"] = [True]  # these models pass the (slow, symbolic) extra validation
                 if rng.random() < 0.25:
